@@ -287,10 +287,12 @@ class DiagService(DiagComm):
                 pass
 
         if len(result_list) < 1:
-            odxraise(f"The service {self.short_name} cannot decode the message {raw_message.hex()}",
-                     DecodeError)
-            return Message(
-                coded_message=raw_message, service=self, coding_object=None, param_dict={})
+            # this is not a violation of the specification which could
+            # be ignored in non-strict mode: DiagLayer relies on this
+            # exception to skip the service and to consider the global
+            # negative responses
+            raise DecodeError(
+                f"The service {self.short_name} cannot decode the message {raw_message.hex()}")
         elif len(result_list) > 1:
             odxraise(
                 f"The service {self.short_name} cannot uniquely decode the message {raw_message.hex()}",
